@@ -37,7 +37,7 @@ def r2(ctx):
     ana = ctx.ana
     fi = ana.func(LK + "all_points_all_clusters_log_likelihood_fast")
     scalar = ana.func(LK + "point_log_likelihood_fast")
-    b = ana.builder(fi, no_inline=lambda f: True)
+    b = ana.builder(fi, no_inline=ana.known)
     W, K, mus, thetas, lds, data = (Sym(p) for p in fi.params)
     stores = [s for s in b.stores() if s.idx is not None and len(s.idx) == 2]
     if len(stores) != 1:
@@ -67,7 +67,7 @@ def r2(ctx):
     ctx.check(isinstance(rt, Sym) and rt.name == s.base_name, fi, "the filled table is returned", role="table:return", found=str(rt))
     # wrapper: arrays built from the same cluster sequence, fields by name, argument order
     wr = ana.func(LK + "all_points_all_clusters_log_likelihood")
-    bw = ana.builder(wr, no_inline=lambda f: True)
+    bw = ana.builder(wr, no_inline=ana.known)
     m, d = Sym(wr.params[0]), Sym(wr.params[1])
     r = bw.return_term()
     ok = isinstance(r, App) and r.fn == fi.qualname
@@ -93,42 +93,66 @@ def r2(ctx):
 def r3(ctx):
     ana = ctx.ana
     wr = ana.func(LK + "all_points_all_clusters_log_likelihood")
-    bw = ana.builder(wr, no_inline=lambda f: True)
+    bw = ana.builder(wr, no_inline=ana.known)
     cfg = ana.cfg(wr)
     m = Sym(wr.params[0])
-    st = {s.attr: s for s in bw.stores() if s.attr in ("inverse_covariance", "log_determinant")}
+    # stores performed by the wrapper itself or by helpers extracted from it
+    st = {}
+    for s in bw.stores():
+        if s.attr in ("inverse_covariance", "log_determinant"):
+            st.setdefault(s.attr, []).append(s)
+    done_nodes = []
     for attr in ("inverse_covariance", "log_determinant"):
-        if attr not in st:
-            ctx.fail(wr, f"`{attr}` is not refreshed before scoring", role=f"refresh:{attr}")
+        if len(st.get(attr, [])) != 1:
+            ctx.fail(wr, f"`{attr}` is not refreshed exactly once before scoring", role=f"refresh:{attr}", found=f"{len(st.get(attr, []))} store(s)")
             continue
-        s = st[attr]
-        base_ok = isinstance(s.base, Idx) and s.base.base == Attr(m, "clusters") and len(s.loops) == 1
+        s = st[attr][0]
+        base_ok = isinstance(s.base, Idx) and s.base.base == Attr(m, "clusters") and len(s.base.idx) == 1
         k = s.base.idx[0] if base_ok else None
-        rng = bw.loop_range(s.loops[0]) if s.loops and isinstance(s.loops[0], ast.For) else None
-        ok = base_ok and rng in (Range(0, Attr(Attr(m, "arguments"), "num_clusters")), Range(0, tm.length(Attr(m, "clusters")))) \
-            and k == Sym(s.loops[0].target.id) and s.guards == tm.TRUE
+        rng = None
+        if base_ok:
+            for lv, lr in zip(s.loop_vars, s.loop_ranges):
+                if lv == k:
+                    rng = lr
+            if rng is None and s.loops:
+                # iteration over the cluster list itself
+                bnd = [(lv, lp) for lv, lp in zip(s.loop_vars, s.loops) if lv == k]
+                if bnd:
+                    rng = Range(0, tm.length(Attr(m, "clusters")))
+        ok = base_ok and rng in (Range(0, Attr(Attr(m, "arguments"), "num_clusters")), Range(0, tm.length(Attr(m, "clusters")))) and s.guards == tm.TRUE
         ctx.check(ok, wr, f"`{attr}` is refreshed unconditionally for every cluster k in range(K)", line=s.stmt.lineno, role=f"refresh:{attr}:range",
                   expected="for k in range(K): clusters[k]." + attr + " = ...", found=f"{s.base}.{attr} under {s.guards}, range {rng}")
         if attr == "inverse_covariance" and base_ok:
             ctx.check(s.value == Attr(s.base, "train_inverse"), wr, "inverse_covariance := train_inverse of the same cluster", line=s.stmt.lineno,
                       role="refresh:source", expected=str(Attr(s.base, "train_inverse")), found=str(s.value))
-        # dominance over the array construction
-        uses = [n for n in cfg.nodes if n.kind == "stmt" and isinstance(n.ast, ast.Assign)
-                and any(isinstance(x, ast.Attribute) and x.attr == attr and isinstance(x.ctx, ast.Load) for x in ast.walk(n.ast.value))
-                and not cfg.enclosing_loops(n)]
-        loop_exit = [n for n in cfg.nodes if n.kind == "for_exit" and s.loops and n.ast is s.loops[0]]
-        ok = bool(uses) and bool(loop_exit) and all(cfg.dominates(loop_exit[0], u) for u in uses)
-        ctx.check(ok, wr, f"the refresh loop completes before `{attr}` is gathered for the kernel", role=f"refresh:{attr}:order",
-                  expected="refresh loop dominates the gather", found=f"{len(uses)} gather site(s)")
+        # the point after which the refresh is complete, in the wrapper's own CFG
+        outer = cfg.enclosing_loops(s.node)
+        if outer:
+            ex = [n for n in cfg.nodes if n.kind == "for_exit" and n.ast is outer[0]]
+            done = ex[0] if ex else None
+        else:
+            done = s.node
+        done_nodes.append((attr, done, s))
+    for attr, done, s in done_nodes:
+        # every read of the field in the wrapper (other than inside the refresh itself) happens after the refresh
+        reads = []
+        for n in Resolver.walk_own(wr.node):
+            if isinstance(n, ast.Attribute) and n.attr == attr and isinstance(n.ctx, ast.Load):
+                at = cfg.expr_node.get(id(n))
+                if at is not None and at.id != s.node.id:
+                    reads.append(at)
+        ok = done is not None and bool(reads) and all(cfg.dominates(done, r) and r.id != done.id or (cfg.dominates(done, r) and done.kind != "stmt") for r in reads)
+        ok = done is not None and bool(reads) and all(cfg.dominates(done, r) for r in reads)
+        ctx.check(ok, wr, f"the refresh of `{attr}` completes before the field is gathered for the kernel", role=f"refresh:{attr}:order",
+                  expected="refresh dominates every read of the field", found=f"{len(reads)} read site(s)")
     # the relabel phase copies clusters after scoring, so the returned state carries the refreshed fields
     pr = ana.func("cluster_label_assignment.predict_cluster_labels")
     cfgp = ana.cfg(pr)
     calls = calls_to(ana, pr, wr.qualname)
-    copies = [n for n in cfgp.nodes if n.kind == "stmt" and isinstance(n.ast, ast.Assign)
-              and any(isinstance(x, ast.Call) and isinstance(x.func, ast.Attribute) and x.func.attr == "deep_copy" for x in ast.walk(n.ast.value))]
+    copies = [cfgp.node_of(n) for n in Resolver.walk_own(pr.node) if isinstance(n, ast.Call) and isinstance(n.func, ast.Attribute) and n.func.attr == "deep_copy"]
     ok = len(calls) == 1 and bool(copies) and all(cfgp.dominates(cfgp.node_of(calls[0].node), c) for c in copies)
     ctx.check(ok, pr, "clusters are copied into the returned state after the scoring call refreshed them", role="refresh:then-copy",
-              expected="likelihood(...) dominates the deep copies", found=f"{len(calls)} scoring call(s), {len(copies)} copy statement(s)")
+              expected="likelihood(...) dominates the deep copies", found=f"{len(calls)} scoring call(s), {len(copies)} copy site(s)")
     if calls:
         ba = bind_args(wr, calls[0].node)
         ctx.check(isinstance(ba.get(wr.params[0]), ast.Name) and ba[wr.params[0]].id == pr.params[0], pr,
@@ -140,14 +164,14 @@ def r4(ctx):
     ana = ctx.ana
     pl = ana.func(LK + "point_log_likelihood")
     fast = ana.func(LK + "point_log_likelihood_fast")
-    b = ana.builder(pl, no_inline=lambda f: True)
+    b = ana.builder(pl, no_inline=ana.known)
     rt = b.return_term()
     pt, cl, W, N = (Sym(p) for p in pl.params)
     want = App(fast.qualname, (pt, Attr(cl, "stacked_data_mean"), Attr(cl, "inverse_covariance"), Attr(cl, "log_determinant"), W, N))
     ctx.check(rt == want, pl, "the wrapper feeds the cluster's mean, inverse_covariance and log_determinant to the scalar kernel in order",
               role="wrapper", expected=str(want), found=str(rt)[:200])
     fi = ana.func("main_loop._compute_log_likelihood_by_cluster")
-    bb = ana.builder(fi, no_inline=lambda f: True)
+    bb = ana.builder(fi, no_inline=ana.known)
     data, m = Sym(fi.params[0]), Sym(fi.params[1])
     appends = [n for n in Resolver.walk_own(fi.node) if isinstance(n, ast.Call) and isinstance(n.func, ast.Attribute) and n.func.attr == "append"]
     done = False
